@@ -21,6 +21,11 @@ def cases(seed, tier, broken=()):
         L["kind"] = "roundtrip"
         L["flags"] = {"with_center": bool(rng.random() < 0.5), "with_std": bool(rng.random() < 0.3)}
         out.append(L)
+    # latitude weighting is part of the way in and out: the whole range [-90, 90] incl. both poles, any accepted latitude name
+    for i in range({"quick": 8, "thorough": 60, "search": 30}[tier]):
+        out.append({"kind": "coslat_roundtrip", "container": ["DA", "DS", "LIST"][i % 3], "latname": ["lat", "latitude", "Lat", "lats"][i % 4],
+                    "lats": [[-90.0, -45.0, 0.0, 45.0, 90.0], [90.0, 30.0, -30.0, -90.0], [-90.0, 90.0], sorted(float(x) for x in rng.uniform(-90, 90, size=4))][i % 4],
+                    "mseed": int(rng.integers(0, 2**31)), "center": bool(i % 2)})
     if tier == "thorough":
         for L in layouts.enumerate_layouts():
             L["kind"] = "roundtrip"
@@ -30,6 +35,8 @@ def cases(seed, tier, broken=()):
 
 
 def nontrivial_key(case, info):
+    if case["kind"] == "coslat_roundtrip":
+        return ("coslat", case["container"], case["latname"], tuple(case["lats"]), case["center"])
     return (case["container"], tuple(case["sd"]), tuple(case["fd"]), tuple(case["perm"]), tuple(sorted(case["kinds"].items())), case["names"],
             tuple(sorted(case["flags"].items())))
 
@@ -88,9 +95,33 @@ def check_mode_struct(out, ref, keep_dims, what, F, cc):
             return
 
 
+def run_coslat(case):
+    from xeofs.preprocessing.preprocessor import Preprocessor
+
+    F = []
+    rng = np.random.default_rng(case["mseed"])
+    ln, lats = case["latname"], case["lats"]
+    A = xr.DataArray(rng.normal(size=(6, len(lats), 3)) + 2.0, dims=("time", ln, "lon"), coords={"time": np.arange(6), ln: lats, "lon": [0.0, 10.0, 20.0]}, name="a")
+    obj = {"DA": A, "DS": xr.Dataset({"a": A, "b": A * 2 - 1}), "LIST": [A, (A * 0.5).isel(lon=slice(0, 2))]}[case["container"]]
+    cc = f"coslat|{case['container']}"
+    try:
+        p = Preprocessor(with_center=case["center"], with_coslat=True)
+        D = p.fit_transform(obj, ["time"])
+        R = p.inverse_transform_data(D)
+    except Exception as e:  # noqa: BLE001
+        F.append(Finding("oracle", "roundtrip_data", cc + "|raises", f"latitude-weighted preprocessing raised {type(e).__name__}: {str(e)[:150]}"))
+        return {"findings": F, "info": {}}
+    r = compare_labelled(obj, R, rtol=1e-9, atol=1e-9)
+    if r:
+        F.append(Finding("oracle", "roundtrip_data", cc, f"fit_transform -> inverse_transform_data with use_coslat, latitudes {lats}: {r[:200]}"))
+    return {"findings": F, "info": {"dist": {"container": "coslat-" + case["container"]}}}
+
+
 def run(case):
     from xeofs.preprocessing.preprocessor import Preprocessor
 
+    if case["kind"] == "coslat_roundtrip":
+        return run_coslat(case)
     F = []
     obj = layouts.build(case)
     sd = tuple(case["sd"])
@@ -145,5 +176,17 @@ def run(case):
     r = compare_labelled(obj, rec, rtol=1e-8, atol=1e-8 * 4000)
     if r:
         F.append(Finding("oracle", "reconstruction_structure", cc, f"inverse_transform(scores()) with all modes: {r}"))
-    info["oracle_checks"] = {"layout": 5}
+    # the labels of the fitted results stay the model's own after other data went through `transform`: the same labelled data
+    # stored in the opposite order along the first sample dimension
+    try:
+        rev = lambda o: o.isel({sd[0]: slice(None, None, -1)})  # noqa: E731
+        B = [rev(o) for o in obj] if isinstance(obj, list) else rev(obj)
+        m.transform(B)
+        sc2 = m.scores()
+        r = compare_labelled(sc, sc2, rtol=0.0, atol=0.0)
+        if r:
+            F.append(Finding("oracle", "labels_survive_transform", cc, f"scores() after transform(data in another storage order) no longer match scores() before: {r[:200]}"))
+    except Exception as e:  # noqa: BLE001
+        F.append(Finding("oracle", "labels_survive_transform", cc + "|raises", f"{type(e).__name__}: {str(e)[:150]}"))
+    info["oracle_checks"] = {"layout": 6}
     return {"findings": F, "info": info}
